@@ -27,21 +27,21 @@ S_isFree = sl("LPFisFree", r"static\s+inline\s+bool\s+LPFisFree\s*\(\s*const\s+c
 S_readSense = sl("LPFreadSense", r"static\s+inline\s+int\s+LPFreadSense\s*\(\s*char\*&\s+pos\s*\)")
 S_hasKeyword = sl("LPFhasKeyword", r"static\s+inline\s+bool\s+LPFhasKeyword\s*\(\s*char\*&\s+pos\s*,\s*const\s+char\*\s+keyword\s*\)")
 S_hasRowName = sl("LPFhasRowName", r"static\s+inline\s+bool\s+LPFhasRowName\s*\(\s*char\*&\s+pos\s*,\s*NameSet\*\s+rownames\s*\)",
-                  [r"strchr\(pos,\s*':'\)", r"char\s+name\[SOPLEX_LPF_MAX_LINE_LEN\]", r"rownames->add\(name\)"])
+                  [r"strchr\(pos,\s*':'\)", r"std::vector<char>\s+namebuf", r"rownames->add\(name\)"])
 S_readInfinity = sl("LPFreadInfinity", r"template\s*<class\s+R>\s*static\s+R\s+LPFreadInfinity\s*\(\s*char\*&\s+pos\s*\)",
                     [r"LPFhasKeyword\(\+\+pos,\s*\"inf\[inity\]\"\)"])
 S_readValue = sl("LPFreadValue", r"template\s*<class\s+R>\s*static\s+R\s+LPFreadValue\s*\(\s*char\*&\s+pos\s*,\s*SPxOut\*\s+spxout\s*\)",
-                 [r"atof\(tmp\)", r"char\s+tmp\[SOPLEX_LPF_MAX_LINE_LEN\]"])
+                 [r"atof\(tmp\.data\(\)\)"])
 S_readColName = sl("LPFreadColName",
                    r"template\s*<class\s+R>\s*static\s+int\s+LPFreadColName\s*\(\s*char\*&\s+pos\s*,\s*NameSet\*\s+colnames\s*,\s*LPColSetBase<R>&\s+colset\s*,"
                    r"\s*const\s+LPColBase<R>\*\s+emptycol\s*,\s*SPxOut\*\s+spxout\s*\)",
-                   [r"char\s+name\[SOPLEX_LPF_MAX_LINE_LEN\]", r"colnames->number\(name\)", r"colnames->add\(name\)", r"colset\.add\(\*emptycol\)"])
+                   [r"std::vector<char>\s+namebuf", r"colnames->number\(name\)", r"colnames->add\(name\)", r"colset\.add\(\*emptycol\)"])
 
 RAT = "src/soplex/spxlpbase_rational.hpp"
 S_readColName_rat = {"as": "LPFreadColName_rat.inc", "file": RAT,
                      "sig": r"static\s+int\s+LPFreadColName\s*\(\s*char\*&\s+pos\s*,\s*NameSet\*\s+colnames\s*,\s*LPColSetBase<Rational>&\s+colset\s*,"
                             r"\s*const\s+LPColBase<Rational>\*\s+emptycol\s*,\s*SPxOut\*\s+spxout\s*\)",
-                     "must_contain": [r"char\s+name\[SOPLEX_LPF_MAX_LINE_LEN\]"]}
+                     "must_contain": [r"std::vector<char>\s+namebuf"]}
 S_readInfinity_rat = {"as": "LPFreadInfinity_rat.inc", "file": RAT, "sig": r"static\s+Rational\s+LPFreadInfinity\s*\(\s*char\*&\s+pos\s*\)",
                       "must_contain": [r"LPFhasKeyword\(\+\+pos,\s*\"inf\[inity\]\"\)"]}
 
@@ -123,8 +123,7 @@ KEYWORDS = [  # (instance suffix, literal, call-site pos expression)
     ("lazy", "lazy con[straints]", "pos"), ("bounds", "bound[s]", "pos"), ("binary", "bin[ary]", "pos"), ("binaries", "bin[aries]", "pos"),
     ("generals", "gen[erals]", "pos"), ("integers", "int[egers]", "pos"), ("end", "end", "pos"), ("inf", "inf[inity]", "++pos"),
 ]
-# only the bracket-free keyword is safe on the tree as it stands (see the finding in the property file)
-KW_QUICK = {"end"}
+KW_QUICK = {"end", "max", "subject_to", "inf"}          # representative subset in the quick tier, the rest thorough
 kw_alt = "|".join(re.escape(k[1]) for k in KEYWORDS)
 
 
@@ -190,6 +189,8 @@ for suffix, lit, posx in KEYWORDS:
         ],
     }
     if "[" in lit:
+        # the old defect: without this conjunct a ']' in the text is matched against the closing bracket of the keyword
+        inst["mutants"].append({"name": "old_bracket_overrun", "slice": "LPFhasKeyword.inc", "find": "(keyword[i] != ']') && ", "replace": ""})
         # loop contracts generated from the structure of the constant keyword (positions of its [..] sections)
         inst["loops"] = kw_loops(lit)
     else:
@@ -291,21 +292,24 @@ def read_colname(rat):
              IN("*gpp_pos"),
              "g_off <= %s && %s <= %s" % (POS_OFF, POS_OFF, S_OFF),
              "i == %s - g_off" % POS_OFF,
-             "(g_k < i && g_k < g_maxlen) ==> name[g_k] == v_k",     # g_maxlen == SOPLEX_LPF_MAX_LINE_LEN (requires): keeps the invariant itself in bounds
+             "(g_k < i) ==> name[g_k] == v_k",
          ],
          "assigns": ["i", "*gpp_pos", "__CPROVER_object_whole(name)"], "decreases": "%s - %s" % (S_OFF, POS_OFF)},
     ],
     "min_obligations": 100,
-    "tier": "thorough",
+    "tier": "quick",
     "mutants": [
         {"name": "no_terminator", "slice": "LPFreadColName.inc", "find": "name[i] = '\\0';", "replace": "name[i] = '0';"},
         {"name": "unknown_added", "slice": "LPFreadColName.inc", "find": "if(emptycol == nullptr)", "replace": "if(emptycol != nullptr)"},
         {"name": "index", "slice": "LPFreadColName.inc", "find": "colidx = colnames->num();", "replace": "colidx = colnames->num() - 1;"},
+        {"name": "old_stack_buffer", "slice": "LPFreadColName.inc", "regex": True,
+         "find": r"std::vector<char>\s+namebuf\(size_t\(s - pos\) \+ 1\);\s*char\*\s+name = namebuf\.data\(\);", "replace": "char name[SOPLEX_LPF_MAX_LINE_LEN];"},
+        {"name": "one_byte_short", "slice": "LPFreadColName.inc", "find": "namebuf(size_t(s - pos) + 1)", "replace": "namebuf(size_t(s - pos))"},
     ],
 }
     d["name"] += sfx
-    d["flags"] = ["--bounds-check", "--pointer-check", "--signed-overflow-check", "--conversion-check", "--sat-solver", "cadical"]
-    d["timeout_s"] = 600       # ~200 s on an idle machine while the overflow is in the tree (several solver rounds), far more under load
+    d["flags"] = ["--bounds-check", "--pointer-check", "--signed-overflow-check", "--conversion-check", "--no-malloc-may-fail", "--sat-solver", "cadical"]
+    d["timeout_s"] = 600       # the instance itself needs ~30 s; the old_stack_buffer mutant (several solver rounds) needs 200-400 s
     if rat:
         d["function"] = "LPFreadColName(char*& pos, NameSet* colnames, LPColSetBase<Rational>& colset, const LPColBase<Rational>* emptycol, SPxOut* spxout)  [spxlpbase_rational.hpp]"
         d["defines"]["RAT_TWIN"] = ""
@@ -346,10 +350,13 @@ instances.append({
          "assigns": ["i", "k", "__CPROVER_object_whole(name)"], "decreases": "end + 1 - i"},
     ],
     "min_obligations": 100,
-    "tier": "thorough",
+    "tier": "quick",
     "mutants": [
         {"name": "behind_colon", "slice": "LPFhasRowName.inc", "find": "pos = &(pos[dcolpos + 1]);\n\n   return true;", "replace": "pos = &(pos[dcolpos + 2]);\n\n   return true;"},
         {"name": "blank_name", "slice": "LPFhasRowName.inc", "find": "// go back to the non-space character\n   srt++;", "replace": "// go back to the non-space character\n   srt += 0;"},
+        {"name": "old_stack_buffer", "slice": "LPFhasRowName.inc", "regex": True,
+         "find": r"std::vector<char>\s+namebuf\(size_t\(end - srt\) \+ 2\);\s*char\*\s+name = namebuf\.data\(\);", "replace": "char name[SOPLEX_LPF_MAX_LINE_LEN];"},
+        {"name": "one_byte_short", "slice": "LPFhasRowName.inc", "find": "namebuf(size_t(end - srt) + 2)", "replace": "namebuf(size_t(end - srt) + 1)"},
         {"name": "underflow", "slice": "LPFhasRowName.inc", "find": "for(end = dcolpos - 1; end >= 0; end--)", "replace": "for(end = dcolpos - 1; end >= -1; end--)"},
     ],
 })
@@ -358,12 +365,14 @@ kw_absent = r"LPFhasKeyword\(\s*(?:\+\+)?pos\s*,\s*\"(?!(?:%s)\")" % kw_alt
 
 unit = {
     "property": ["C13"],
-    "desc": "LP-format reader helpers (spxlpbase_real.hpp): real bodies on a symbolic NUL-terminated line that may be longer than SOPLEX_LPF_MAX_LINE_LEN",
+    "desc": "LP-format reader helpers (spxlpbase_real.hpp and the twins in spxlpbase_rational.hpp): real bodies on a symbolic NUL-terminated line that may be longer than SOPLEX_LPF_MAX_LINE_LEN; token-sized scratch buffers",
     "rmode": "double (IEEE, bit-precise) for LPFreadInfinity; the other helpers handle characters and ints only",
     "defines": {"CAP": str(CAP)},
     "replay": {"cpp": "replay.cpp", "extra_src": ["LIB"], "asan": True},
-    "flags": ["--bounds-check", "--pointer-check", "--signed-overflow-check", "--conversion-check"],
+    # --no-malloc-may-fail: the std::vector stub allocates with malloc; a failing allocation is std::bad_alloc in the real code, not a NULL buffer
+    "flags": ["--bounds-check", "--pointer-check", "--signed-overflow-check", "--conversion-check", "--no-malloc-may-fail"],
     "timeout_s": 280,
+    "instrument_flags": ["--no-malloc-may-fail"],      # the malloc model is linked in by goto-instrument --dfcc, so the option is needed there as well
     "constants": [
         {"name": "SOPLEX_LPF_MAX_LINE_LEN", "file": HPP, "regex": r"#define\s+SOPLEX_LPF_MAX_LINE_LEN\s+(\d+)"},
         {"name": "SOPLEX_DEFAULT_INFINITY", "file": "src/soplex/spxdefines.h", "regex": r"typedef\s+double\s+Real;.*?#define\s+SOPLEX_DEFAULT_INFINITY\s+([0-9.eE+-]+)\s*\n"},
@@ -384,6 +393,7 @@ unit = {
         "C library models in unit.cpp: tolower (glibc table domain -128..255 asserted, \"C\" locale mapping), strchr (first occurrence or NULL)",
         "NameSet::number/num/add and LPColSetBase::add are ghost-recording stubs: they record the bytes they are handed at the ghost indices and return unconstrained values (NameSet::number assumed to return -1..num()-1, its documented range)",
         "logging dropped: SPX_MSG_WARNING expands to nothing, SPxOut::debug is an empty stub; assert() compiled out (NDEBUG semantics)",
+        "std::vector<char> stub: vector(n) is a malloc object of exactly n bytes with unconstrained contents (the real one is zero-filled), data() its address, no destructor; allocation failure (std::bad_alloc in the real code) is not modelled (--no-malloc-may-fail)",
         "line buffer capped at CAP=%d bytes (> SOPLEX_LPF_MAX_LINE_LEN); loop contracts are inductive, the cap bounds the object size only" % CAP,
         "complete unwinding (with unwinding assertions) instead of a loop contract: LPFhasKeyword for the bracket-free keyword \"end\" (bounded by the length of the literal); the keywords with optional sections carry loop contracts generated from the literal's structure; strchr on string literals is written out loop-free for literals of up to 24 characters (asserted)",
         "LPFreadInfinity is proved against the contract of its callee LPFhasKeyword (pos stays inside the line and does not move backwards), which the hasKeyword_inf instance proves for the literal \"inf[inity]\"",
